@@ -843,6 +843,9 @@ func tkSerializeDecode(c *Ctx, b *tkBatch, format string, tok cashu.Token, tc tk
 		expectFront = `((v4 (payload "` + hex.EncodeToString(payload) + `")) (v3 (err invalid-v3)))`
 	}
 	b.add("front(serialized)", L(A("token.front"), S(hex.EncodeToString([]byte(ser)))), expectFront, replay)
+	// the modelled marshallers (Model.TokenWire: struct tags, omitempty, JSON escaping, CBOR heads) reproduce the
+	// serialised string byte for byte
+	b.add("serialize", L(A("token.serialize"), tkTokenSx(tok)), Render(S(ser)), replay)
 
 	var dec cashu.Token
 	if p := tkRecover(func() { dec, err = cashu.DecodeToken(ser) }); p != "" {
